@@ -160,7 +160,8 @@ func (c *Ctx) Violate(signature, what string, replay interface{}) {
 		c.Res.violSeen = map[string]int{}
 	}
 	c.Res.violSeen[signature]++
-	if c.Res.violSeen[signature] > 3 || len(c.Res.Violations) > 60 {
+	// keep up to 3 replays per signature; past 60 entries keep only the first replay of each NEW signature
+	if c.Res.violSeen[signature] > 3 || (len(c.Res.Violations) > 60 && c.Res.violSeen[signature] > 1) {
 		return
 	}
 	c.Res.Violations = append(c.Res.Violations, Violation{signature, what, replay})
